@@ -114,6 +114,7 @@ func (ts *treeStorage) Remove(id TreeID) {
 			delete(ts.trees, id)
 			delete(ts.cancellations, id)
 			ts.Unlock()
+			verifAt("treestorage.timerDone", ts, id)
 		case <-c:
 			timer.Stop()
 			return
